@@ -147,7 +147,9 @@ ENV_REGRESSION = {"expr.wicks(opgen)", "expr.wicks(opgen,deltas)", "expr.wicks(w
                   "expr.wicks(opstring2)",
                   # several equivalent results exist: the choice must not follow hash order
                   "expr.cancel_orb_energy_frac(dep4)", "expr.cancel_orb_energy_frac(dep4x)",
-                  "expr.reduce_expr(dep4)"}
+                  "expr.reduce_expr(dep4)",
+                  # numbered index names in generated code
+                  "code.generate_code(code3_num,einsum)", "code.generate_code(contr2_num,einsum)"}
 
 # requests that mix user-chosen contracted names with generic ones: issued at every phase of
 # the generic name pools (which generic names are handed out depends only on how many were
